@@ -20,12 +20,17 @@ static bool in_region;
 static long faults[256];
 static size_t nfaults, fidx;
 
+static uint32_t next_base;
+static uint32_t base;      /* the medium's window starts here (0 unless ps.relocate) */
+
 static void
 log_access(char rw, uint32_t addr, size_t n)
 {
-    loglen += snprintf(logbuf + loglen, sizeof logbuf - loglen, "%s%c@%" PRIu32 "+%zu", loglen ? "," : "", rw, addr, n);
-    uint64_t lo = store.checksum.address, hi = (uint64_t)store.data.address + store.data.size;
-    if (addr < lo || (uint64_t)addr + n > hi) in_region = false;
+    /* reported relative to the window base (ps.relocate): where the medium's window lies in the 32-bit address
+     * space is invisible to the model */
+    loglen += snprintf(logbuf + loglen, sizeof logbuf - loglen, "%s%c@%" PRIu32 "+%zu", loglen ? "," : "", rw, (uint32_t)(addr - base), n);
+    uint64_t lo = (uint32_t)(store.checksum.address - base), hi = (uint64_t)(uint32_t)(store.data.address - base) + store.data.size;
+    if ((uint32_t)(addr - base) < lo || (uint64_t)(uint32_t)(addr - base) + n > hi) in_region = false;
 }
 
 static long
@@ -39,9 +44,10 @@ med_read(void *dst, uint32_t addr, size_t n)
 {
     log_access('r', addr, n);
     long f = next_fault();
-    size_t full = ((uint64_t)addr + n <= msize) ? n : 0;
+    uint32_t rel = addr - base;
+    size_t full = ((uint64_t)rel + n <= msize) ? n : 0;
     size_t k = (f >= 0 && (size_t)f < full) ? (size_t)f : full;
-    if (k) memcpy(dst, medium + addr, k);
+    if (k) memcpy(dst, medium + rel, k);
     return k;
 }
 
@@ -50,9 +56,10 @@ med_write(uint32_t addr, const void *src, size_t n)
 {
     log_access('w', addr, n);
     long f = next_fault();
-    size_t full = ((uint64_t)addr + n <= msize) ? n : 0;
+    uint32_t rel = addr - base;
+    size_t full = ((uint64_t)rel + n <= msize) ? n : 0;
     size_t k = (f >= 0 && (size_t)f < full) ? (size_t)f : full;
-    if (k) memcpy(medium + addr, src, k);
+    if (k) memcpy(medium + rel, src, k);
     return k;
 }
 
@@ -140,8 +147,13 @@ harness_op(int argc, char **argv)
 {
     const char *op = argv[0];
     begin_op();
-    if (strcmp(op, "ps.init") == 0 && argc == 8) {
+    if (strcmp(op, "ps.relocate") == 0 && argc == 2) {
+        /* the next ps.init places its medium window at this address (e.g. 2^32 - size: the store ends with the address space) */
+        next_base = (uint32_t)parse_u64(argv[1]);
+        printf("ok");
+    } else if (strcmp(op, "ps.init") == 0 && argc == 8) {
         harness_reset();
+        base = next_base; next_base = 0;
         msize = parse_u64(argv[1]);
         medium = malloc(msize ? msize : 1);
         memset(medium, (int)strtoul(argv[2], NULL, 16), msize ? msize : 1);
@@ -155,7 +167,7 @@ harness_op(int argc, char **argv)
             /* trivialsum is file-local: re-registering it is not possible; the default instance uses init 0 */
             printf("bad-op"); return;
         }
-        persistent_place(&store, (uint32_t)parse_u64(argv[3]));
+        persistent_place(&store, base + (uint32_t)parse_u64(argv[3]));
         if (strcmp(argv[7], "none") != 0) {
             size_t bs = parse_u64(argv[7]);
             auxbuf = malloc(bs ? bs : 1);       /* exact size */
